@@ -213,6 +213,55 @@ pub fn nodrain_case(i: u64, seed: u64) -> Scenario {
     sc
 }
 
+/// a peer's process is restarted on the same address while the handshake is still going on (once or twice):
+/// the other side has matched 0..4 replies of the old process by then
+pub fn restart_case(i: u64, seed: u64) -> Scenario {
+    let mut k = i;
+    let t = 1 + (k % 40) as u32;
+    k /= 40;
+    let lat = [0u16, 20, 60, 110][(k % 4) as usize];
+    k /= 4;
+    let who = (k % 2) as u8;
+    k /= 2;
+    let twice = k % 2 == 1;
+    k /= 2;
+    let cfg = (k % 3) as usize;
+    let mut sc = Scenario::basic(mix(seed ^ 0x2e57, i), 2);
+    let (n, to) = [(500u32, 2000u32), (200, 600), (300, 1000)][cfg];
+    sc.notify_ms = n;
+    sc.timeout_ms = to;
+    sc.sched = 0;
+    sc.max_pred = [8u8, 0, 2][(i % 3) as usize];
+    sc.link = LinkProfile { loss: 0, dup: 0, lat_min: lat, lat_max: lat };
+    sc.ops.push(Op::Restart { tick: t, peer: who });
+    if twice {
+        sc.ops.push(Op::Restart { tick: t + 3 + (i % 11) as u32, peer: who });
+    }
+    if (i / 7) % 4 == 0 {
+        sc.specs.push(SpecSpec { host: who, max_behind: 10, catchup: 1, slow: 0, window: sc.max_pred });
+    }
+    sc.ticks = 260;
+    sc.settle = 160;
+    sc
+}
+const NRESTART: u64 = 40 * 4 * 2 * 2 * 3;
+
+pub fn eval_restart(sc: &Scenario) -> CaseResult {
+    let mut r = eval(sc);
+    let out = run(sc, &RunOpts::default());
+    if r.violation.is_none() {
+        let (pp, sp) = progress_in_tail(&out, 60);
+        if pp.iter().any(|d| *d < 3) || sp.iter().any(|d| *d < 3) {
+            r.violation = Some(("C12.restart_not_running".into(), format!("after a restart during the handshake (links loss-free) the sessions advanced only {pp:?} / spectators {sp:?} frames in the last 60 ticks")));
+        }
+    }
+    r.nontrivial = out.peers.iter().any(|p| p.restarts > 0);
+    if out.peers.iter().any(|p| p.restarts > 1) {
+        r.classes.push("restarted_twice");
+    }
+    r
+}
+
 pub fn run_prop(ctx: &Ctx) -> PropReport {
     let mut rep = PropReport::new("C12", "exploration");
     let seed = ctx.seed;
@@ -229,6 +278,9 @@ pub fn run_prop(ctx: &Ctx) -> PropReport {
     rep.part(|| run_enum(ctx, "never_drained",
         "2-3 peers whose user never drains events while interruptions (40 short outages with notify 100 ms), desync reports (interval 1-3, one peer corrupted) and wait recommendations are produced: events().len() <= 100 after every call",
         ctx.tier.pick(24, 96), move |i| nodrain_case(i, seed), eval, false));
+    rep.part(|| run_enum(ctx, "restart_during_handshake",
+        "enumeration: one of two peers (sometimes hosting a spectator) is restarted on the same address - a new session object with a new magic number - at tick 1..=40 of the handshake (and possibly a second time 3-13 ticks later) x latency {0,20,60,110 ms} x three timeout settings x window {8,0,2}, loss-free; the restart is only carried out while no other node has reported that address Synchronized; oracle: grammar, nonce ledger, Running iff all synchronized, exact timing prediction (no NetworkInterrupted / Disconnected on a healthy link), and everybody advances at the end; non-trivial = a restart was carried out",
+        NRESTART, move |i| restart_case(i, seed), eval_restart, true));
     rep.floors.push(("handshake".into(), 0.3));
     rep.assumptions = vec!["event instants are poll instants; the timing predictor is exact at poll granularity and is applied to sessions with <= 2 peers (endpoints in larger sessions can be disconnected through gossip, which is C10's space)".into()];
     rep
